@@ -466,6 +466,7 @@ fn run_write_case(c: &WriteCase, rep: &mut Report) {
     let r = catch(|| {
         let f = Frame::new(Address(c.frame.0), MsgType(c.frame.1), Data::try_new(c.frame.2.clone()).expect("<=255"));
         f.write(&mut w).map_err(|e| match e {
+            FrameError::Io { ref source } if std::error::Error::source(&e).map(|x| x.to_string()) != Some(source.to_string()) => format!("Other(Io error whose Error::source() is {:?})", std::error::Error::source(&e).map(|x| x.to_string())),
             FrameError::Io { source } => format!("Io({:?})", source.kind()),
             other => format!("Other({:?})", other),
         })
@@ -596,7 +597,8 @@ fn std_sinks(rep: &mut Report) {
                         }
                     };
                     (res.map_err(|e| match e {
-                        FrameError::Io { source } => format!("Io({:?})", source.kind()),
+                        FrameError::Io { ref source } if std::error::Error::source(&e).map(|x| x.to_string()) != Some(source.to_string()) => format!("Other(Io error whose Error::source() is {:?})", std::error::Error::source(&e).map(|x| x.to_string())),
+            FrameError::Io { source } => format!("Io({:?})", source.kind()),
                         other => format!("Other({:?})", other),
                     }), held)
                 });
@@ -797,6 +799,102 @@ fn std_readers(rng: &mut Rng, rep: &mut Report) {
                     rep.violation(MON_R, "wrong_result", &sig, format!("standard-library readers around a stream of {} lines: {}", k, b), J::obj(vec![("workload", J::s("std readers")), ("observed", J::s(b.clone()))]));
                 }
             }
+        }
+    }
+}
+
+/// A caller-supplied sink or stream that PANICS in the middle of a call (the application catches the panic and goes on):
+/// the next write on that thread — to another sink, and to the same one — still delivers exactly its own line, and the
+/// next read still returns the next line of its stream.
+struct Bomb {
+    held: Vec<u8>,
+    tape: Vec<u8>,
+    pos: usize,
+    calls: usize,
+    explode_at: usize,
+    step: usize,
+}
+
+impl io::Write for Bomb {
+    fn write(&mut self, buf: &[u8]) -> io::Result<usize> {
+        self.calls += 1;
+        if self.calls == self.explode_at {
+            panic!("the application's sink panicked");
+        }
+        let n = buf.len().min(self.step);
+        self.held.extend_from_slice(&buf[..n]);
+        Ok(n)
+    }
+    fn flush(&mut self) -> io::Result<()> {
+        Ok(())
+    }
+}
+
+impl io::Read for Bomb {
+    fn read(&mut self, buf: &mut [u8]) -> io::Result<usize> {
+        self.calls += 1;
+        if self.calls == self.explode_at {
+            panic!("the application's stream panicked");
+        }
+        let n = buf.len().min(self.step).min(self.tape.len() - self.pos);
+        buf[..n].copy_from_slice(&self.tape[self.pos..self.pos + n]);
+        self.pos += n;
+        Ok(n)
+    }
+}
+
+fn panicking_io(rng: &mut Rng, rep: &mut Report) {
+    for round in 0..40usize {
+        let a = if round % 4 == 0 { (0x1234u16, 0xA5u8, rng.bytes(255)) } else { rand_frame(rng) };
+        let b = if round % 5 == 0 { (0x0003u16, 0x04u8, vec![0x0F]) } else { rand_frame(rng) };
+        let (line_a, line_b) = (refs::enc_crlf(a.0, a.1, &a.2), refs::enc_crlf(b.0, b.1, &b.2));
+        let step = [1usize, 3, 64, usize::MAX][round % 4];
+        // (a sink that takes everything offered sees one call per line: it can only go off at the first)
+        let explode_at = if step <= 3 { 1 + round % 3 } else { 1 };
+        let sig = format!("panicking-io|{:04X}:{:02X}:{}|{:04X}:{:02X}:{}|step{}|at{}", a.0, a.1, hex(&a.2), b.0, b.1, hex(&b.2), step, explode_at);
+        rep.case(Some(fnv(sig.as_bytes())));
+        let fa = Frame::new(Address(a.0), MsgType(a.1), Data::try_new(a.2.clone()).expect("<=255"));
+        let fb = Frame::new(Address(b.0), MsgType(b.1), Data::try_new(b.2.clone()).expect("<=255"));
+        let mut bad: Vec<String> = vec![];
+        // --- writes
+        let mut bomb = Bomb { held: vec![], tape: vec![], pos: 0, calls: 0, explode_at, step };
+        let exploded = catch(|| fa.write(&mut bomb).is_ok()).is_err();
+        bomb.explode_at = 0; // it goes off once
+        let mut fresh: Vec<u8> = vec![];
+        match catch(|| fb.write(&mut fresh).is_ok()) {
+            Ok(true) if fresh == line_b => {}
+            other => bad.push(format!("after a sink panicked during a write, the next write (to a plain vector) gave {:?} and put [{}] there instead of [{}]", other.map_err(|p| p.msg), show_bytes(&fresh), show_bytes(&line_b))),
+        }
+        let before = bomb.held.len();
+        match catch(|| fb.write(&mut bomb).is_ok()) {
+            Ok(true) if bomb.held[before..] == line_b[..] => {}
+            other => bad.push(format!("after a sink panicked during a write, the next write to the same sink gave {:?} and put [{}] there instead of [{}]", other.map_err(|p| p.msg), show_bytes(&bomb.held[before..]), show_bytes(&line_b))),
+        }
+        // --- reads
+        let mut tape = line_a.clone();
+        tape.extend_from_slice(&line_b);
+        let mut bomb_r = Bomb { held: vec![], tape: tape.clone(), pos: 0, calls: 0, explode_at: explode_at + 1, step };
+        let exploded_r = catch(|| Frame::read(&mut bomb_r).is_ok()).is_err();
+        bomb_r.explode_at = 0;
+        match catch(|| Frame::read(&mut &line_b[..]).map(|g| g == fb).map_err(|e| e.to_string())) {
+            Ok(Ok(true)) => {}
+            other => bad.push(format!("after a stream panicked during a read, the next read (from a plain slice holding one line) gave {:?}", other.map_err(|p| p.msg))),
+        }
+        // the same stream goes on where it stood: what is left of line A is one (probably undecodable) line, then line B
+        if exploded_r {
+            let _ = catch(|| Frame::read(&mut bomb_r).is_ok());
+            let at_line_b = bomb_r.pos == line_a.len();
+            match catch(|| Frame::read(&mut bomb_r).map(|g| g == fb).map_err(|e| e.to_string())) {
+                Ok(Ok(true)) => {}
+                other if at_line_b => bad.push(format!("after a stream panicked during a read and the rest of that line was read off, the next read gave {:?} instead of the next line's frame", other.map_err(|p| p.msg))),
+                _ => {}
+            }
+        }
+        if exploded && exploded_r {
+            rep.count("sinks_and_streams_that_panicked");
+        }
+        for b in bad {
+            rep.violation(MON_W, "state_left_behind_by_a_panicking_sink_or_stream", &sig, b.clone(), J::obj(vec![("workload", J::s("panicking io")), ("observed", J::s(b))]));
         }
     }
 }
@@ -1028,6 +1126,7 @@ pub fn run(ctx: &Ctx) -> Outcome {
             std_sinks(rep);
             chatty_io(&mut ctx.rng("chatty", 0), rep);
             std_readers(&mut ctx.rng("std_readers", 0), rep);
+            panicking_io(&mut ctx.rng("panicking", 0), rep);
             twin_write_sessions(&mut ctx.rng("twins", 0), rep);
             marathon(rep);
         } else {
@@ -1070,6 +1169,7 @@ pub fn run(ctx: &Ctx) -> Outcome {
         floor("the standard library's sinks (slice, cursors, vector, buffered writer) with room for every number of bytes up to the line and two more", report.get("std_sink_writes_ok") > 100 && report.get("std_sink_writes_failed") > 100, format!("{} ok, {} failed", report.get("std_sink_writes_ok"), report.get("std_sink_writes_failed"))),
         floor("sinks and streams that write and read frames of their own during every call", report.get("chatty_sessions_ok") >= 20, report.get("chatty_sessions_ok")),
         floor("the standard library's readers and adaptors (slice, cursors, buffered readers, chains cut at every position, take) around streams of 2..5 lines", report.get("std_reader_rounds_ok") == 12, report.get("std_reader_rounds_ok")),
+        floor("sinks and streams that panic in the middle of a call, then ordinary writes and reads on the same thread", report.get("sinks_and_streams_that_panicked") >= 30, report.get("sinks_and_streams_that_panicked")),
         floor("gathering sinks and first-slice-only sinks", report.get("sinks/gathering") > 1000 && report.get("sinks/first_slice_only") > 1000, report.get("sinks/gathering")),
         floor("write failures surfaced and complete writes both observed", report.get("write_failures_surfaced") > 0 && report.get("writes_ok_complete") > 0, report.get("write_failures_surfaced")),
     ];
